@@ -19,6 +19,10 @@ class Num (K : Type) extends Add K, Sub K, Mul K, Div K, Neg K, LT K, LE K where
   ofNat : Nat → K
   decLt : ∀ a b : K, Decidable (a < b)
   decLe : ∀ a b : K, Decidable (a ≤ b)
+  /-- IEEE not-a-number test (constantly `false` for exact number types) -/
+  isNan : K → Bool := fun _ => false
+  /-- the value numpy returns for an empty / all-NaN reduction (`nan`; unreachable for exact types) -/
+  nan : K := zero
 
 instance {K} [Num K] (a b : K) : Decidable (a < b) := Num.decLt a b
 instance {K} [Num K] (a b : K) : Decidable (a ≤ b) := Num.decLe a b
@@ -30,6 +34,8 @@ instance floatNum : Num Float where
   ofNat := Float.ofNat
   decLt := fun a b => Float.decLt a b
   decLe := fun a b => Float.decLe a b
+  isNan := Float.isNaN
+  nan := 0.0 / 0.0
 
 instance ratNum : Num Rat where
   abs := fun a => if a < 0 then -a else a
